@@ -123,8 +123,12 @@ func TestC25(t *testing.T) {
 			if msg := catch(func() { s1 = i1.Details.String() }); msg != "" {
 				t.Fatalf("%s: String() of %08x (%s): %s", cfg, w1, in.Name, msg)
 			}
-			name := i1.Details.Name()
-			if !(s1 == name || strings.HasPrefix(s1, name+" ")) {
+			// the mnemonic of the specification (independent table), not the tool's own
+			// Name(): "its mnemonic" is the instruction's, whatever the table calls it
+			// (compared case-insensitively, as C02 does: the RV32 table spells one
+			// mnemonic "amoadd.W")
+			name := in.Name
+			if !(strings.EqualFold(s1, name) || len(s1) > len(name) && strings.EqualFold(s1[:len(name)], name) && s1[len(name)] == ' ') {
 				t.Fatalf("%s: text %q of %08x does not start with the mnemonic %q", cfg, s1, w1, name)
 			}
 			if in.Fmt == rvref.FmtLoad || in.Fmt == rvref.FmtS {
